@@ -138,6 +138,8 @@ type Obj struct {
 
 	Attrs    []Attr `json:"attrs,omitempty"`
 	AttrsRes Res    `json:"attrs_res"`
+
+	ExtraRes Res `json:"extra_res"`
 }
 
 type Dump struct {
@@ -238,6 +240,12 @@ type Options struct {
 	// MaxElems, when non-zero, skips the data of datasets that declare more elements
 	// (their three read results carry the error "skipped").
 	MaxElems uint64
+	// Extra also drives the selection readers and the chunk iterator of every dataset
+	// (results discarded; ExtraRes keeps the first error or panic).
+	Extra bool
+	// DropValues calls every reader but does not keep dataset values (hostile inputs may
+	// return gigabytes; the harness must not double them).
+	DropValues bool
 }
 
 func canonValue(v interface{}) string {
@@ -454,6 +462,9 @@ func File(path string, opt Options) *Dump {
 				if err != nil {
 					return err
 				}
+				if opt.DropValues {
+					return nil
+				}
 				o.Read = make([]uint64, len(v))
 				for i, e := range v {
 					o.Read[i] = math.Float64bits(e)
@@ -464,6 +475,9 @@ func File(path string, opt Options) *Dump {
 				v, err := x.ReadStrings()
 				if err != nil {
 					return err
+				}
+				if opt.DropValues {
+					return nil
 				}
 				o.Strings = v
 				if o.Strings == nil {
@@ -476,12 +490,51 @@ func File(path string, opt Options) *Dump {
 				if err != nil {
 					return err
 				}
+				if opt.DropValues {
+					return nil
+				}
 				o.Compound = compoundCanon(v)
 				for _, e := range v {
 					o.CompoundRaw = append(o.CompoundRaw, map[string]interface{}(e))
 				}
 				return nil
 			})
+			if opt.Extra {
+				keep := func(r Res) {
+					if o.ExtraRes.Panic == "" && (r.Panic != "" || o.ExtraRes.Err == "") {
+						o.ExtraRes = r
+					}
+				}
+				n := len(o.Dims)
+				start, count := make([]uint64, n), make([]uint64, n)
+				for i := range count {
+					count[i] = 1
+					if o.Dims[i] > 1 {
+						count[i] = 2
+					}
+				}
+				keep(guard(func() error { _, err := x.ReadSlice(start, count); return err }))
+				keep(guard(func() error {
+					ones := make([]uint64, n)
+					for i := range ones {
+						ones[i] = 1
+					}
+					_, err := x.ReadHyperslab(&hdf5.HyperslabSelection{Start: start, Count: count, Stride: ones, Block: ones})
+					return err
+				}))
+				keep(guard(func() error {
+					it, err := x.ChunkIterator()
+					if err != nil {
+						return err
+					}
+					for k := 0; k < 64 && it.Next(); k++ {
+						if _, err := it.Chunk(); err != nil {
+							return err
+						}
+					}
+					return it.Err()
+				}))
+			}
 		case *hdf5.NamedDatatype:
 			o.Kind = "datatype"
 			if dt := x.Datatype(); dt != nil {
